@@ -186,6 +186,17 @@ def updateExisting (settings other : Dict) : Dict :=
 def mergeConfig (args config settings : Dict) : Dict × Dict :=
   (mergeDicts args config false, updateExisting settings config)
 
+/-! ### when a setting is read (finding F16)
+
+`save_df_as_table(df, path, format_str=SETTINGS.table_export_format, …)` bound the setting as a *default argument*,
+i.e. at the import of `pandas_bridge`; `evo_res` imports it before `merge_config` applies the `-c` file.  The repaired
+code reads the setting when the function is called. -/
+
+/-- the value a call without an explicit argument uses: pre-fix, the settings as they were at import -/
+def settingBoundAtImport (key : String) (atImport _atCall : Dict) : Option JVal := lookup atImport key
+/-- repaired: the settings of the run at the time of the call -/
+def settingReadAtCall (key : String) (_atImport atCall : Dict) : Option JVal := lookup atCall key
+
 /-! ### generate -/
 
 def isOptionTok (tok : String) : Bool := tok.startsWith "-" && !isNumber tok
